@@ -6,6 +6,10 @@
 From Coupe Require Import Lib.Prelude Model.ArcSwap.
 Open Scope Z_scope.
 
+Section WithW.
+Context {W : wops}.
+
+
 (* ------------------------------------------------------------- list facts *)
 
 Lemma nth_opt_set_nth_inv {A} (l : list A) t x t1 y :
@@ -61,7 +65,7 @@ Proof.
   unfold decide. destruct b as [bt bg]. destruct (bg <=? 0).
   - intros [= <-]. reflexivity.
   - destruct (nth_opt (cf_vw cf) v), (nth_opt (w_pw w) bt), (nth_opt tmax bt); try discriminate.
-    destruct (_ <? _); intros [= <-]; reflexivity.
+    destruct (w_ltb _ _); intros [= <-]; reflexivity.
 Qed.
 
 (* what one access does to the locks, the part ids and the worker's phase *)
@@ -315,3 +319,5 @@ Proof.
   eapply (Hi t t w w v v); eauto; rewrite ?P1; cbn; auto.
 Qed.
 End Proto.
+
+End WithW.
